@@ -6,6 +6,14 @@ hooks_commits = subprocess.run(["git","-C","/repo","log","--format=%h %s"],captu
 hook_commits = [l.split()[0] for l in hooks_commits if l.split(" ",1)[1].startswith("verif:")]
 
 CHECKS = {
+ "C04": dict(engine="E2 e2e (in-worker sweep)", category="exploration", technique="bounded-exhaustive sweep of every instruction address, source line and function name of every corpus binary against an independent DWARF reader",
+   text="For each binary of the corpus (quick: 4 programs x {1.89 opt0 DWARF4, 1.95 opt1 DWARF5}; thorough: 56 programs x 8 PIE configurations) inside one debugger session: every instruction address of every user function -> function and (file, line) must equal the reference reader's innermost live function and row; every line 1..max+2 under two spellings of the file path -> the addresses of a line breakpoint must be statement rows of that line (of the next line only if the line has none) and every function instance with statements of the line in its body gets one; every function name -> addresses inside live instances, one per instance, at the prologue_end row.",
+   note="Trusted: the reference reader (own lookup rules over gimli's row iterator; functions/rows outside executable sections are dead). gcc/assembler-shaped line tables (P-c, P-asm of the design) and non-PIE binaries are not in the corpus.",
+   design="3/C04, App.C"),
+ "C08": dict(engine="E4 pure", category="exploration", technique="bounded-exhaustive enumeration of console command lines and query expressions through the real parsers with panics caught",
+   text="Every command line of up to 3 tokens (thorough: 4) over 81 tokens (all keywords and sub-commands, ten boundary numerals incl. 2^32, 2^64, i64::MIN, 65-bit hex, identifiers, punctuation) through Command::parse and every string of up to 4 (5) tokens over 24 expression tokens through expression::parser(): 0.9 M inputs in the quick tier; a panic is a violation. Ill-typed / missing DAP arguments are exercised by C12's request histories.",
+   note="Only parsing is swept here: executing every parsed command at several stop states, arbitrary memory images behind typed casts and the bounds probes (hook H7) are not wired into a check yet.",
+   design="3/C08(a)"),
  "C11": dict(engine="E2 e2e", category="model_checking", technique="explicit-state exploration of command histories ending in drop / detach / restart at every kind of stop",
    text="Histories over breakpoints, start/continue, restart, a hardware watchpoint, and the terminals drop and detach taken from every state (not started, at a breakpoint, after restart, exited) up to depth 6 (quick) / 8: after drop no /proc/<pid> entry remains; after detach the process is not stopped, an independent PTRACE_SEIZE finds text = ELF and no enabled debug-register slot, and the released process runs to the native output and exit code; after restart breakpoints hit again at the reference positions and keep their numbers; the reported exit code is the native one.",
    note="Launched programs only: attach to an external process, quit through the console, multi-threaded programs and death by signal are not covered yet. The program sleeps 60 ms so that the released process can be inspected.",
@@ -86,9 +94,9 @@ m = {
  },
  "engines": [
    {"name":"E3 sched","path":"/verif/harness/src/sched.rs","serves_properties":["C12"],"kind_free_text":"hand-rolled CHESS: real threads parked at feature-gated schedule points, preemption-bounded DFS, worker subprocess per subtree"},
-   {"name":"E2 e2e","path":"/verif/harness/src/{e2x,e2w,isession,reftrace,dwarfref,corpus,c01}.rs","serves_properties":["C01","C02","C03","C05","C10","C11","C14","C15"],"kind_free_text":"explicit-state exploration of command histories: one interactive worker process per session running the real Debugger over generated libc-free debuggees; reference single-step tracer; canonical-state deduplication"},
+   {"name":"E2 e2e","path":"/verif/harness/src/{e2x,e2w,isession,reftrace,dwarfref,corpus,c01}.rs","serves_properties":["C01","C02","C03","C04","C05","C10","C11","C14","C15"],"kind_free_text":"explicit-state exploration of command histories: one interactive worker process per session running the real Debugger over generated libc-free debuggees; reference single-step tracer; canonical-state deduplication"},
    {"name":"E5 dap","path":"/verif/harness/src/{dapx,dapw,c12}.rs","serves_properties":["C12","C13"],"kind_free_text":"explicit-state exploration of DAP request histories: the real DebugSession::run on a thread inside one worker process per session, in-memory transport, real debuggee; protocol monitor + reference-trace oracle"},
-   {"name":"E4 pure","path":"/verif/harness/src/{c07,c14,c17}.rs","serves_properties":["C07","C14","C17"],"kind_free_text":"bounded-exhaustive / explicit-state exploration of in-process components against reference models"},
+   {"name":"E4 pure","path":"/verif/harness/src/{c07,c14,c17}.rs","serves_properties":["C07","C08","C14","C17"],"kind_free_text":"bounded-exhaustive / explicit-state exploration of in-process components against reference models"},
  ],
  "checks": checks,
  "not_applicable": na,
